@@ -58,6 +58,9 @@ type unitPlan struct {
 	// GoArch: build and run this unit's test binary for another architecture that executes natively here ("386":
 	// int, uint and uintptr are 32 bits wide). Files of the package select themselves with //go:build lines.
 	GoArch string `json:"goarch"`
+	// Env: extra environment for the unit's process, e.g. "GODEBUG=asynctimerchan=1" (the timer-channel semantics a
+	// main module with a go line below 1.23 gets)
+	Env []string `json:"env"`
 }
 
 type plan struct {
@@ -407,6 +410,7 @@ func runJob(j *job, work, mode string, seed int64) {
 	if j.unit.MaxProcs > 0 {
 		env = append(env, "GOMAXPROCS="+strconv.Itoa(j.unit.MaxProcs))
 	}
+	env = append(env, j.unit.Env...)
 	cmd.Env = env
 	cmd.SysProcAttr = &syscall.SysProcAttr{Setpgid: true}
 	lf, err := os.Create(j.log)
@@ -894,6 +898,11 @@ func replay(prop string, pl plan, work, path string, needRace, needPlain bool) i
 	cmd := exec.Command(bin, "-test.run", "^TestReplay$", "-test.count=1", "-test.timeout", "300s", "-test.v")
 	cmd.Dir = work
 	cmd.Env = goEnv("VERIF_REPLAY="+abs, "VERIF_WORK="+work, "VERIF_TIER=replay", "GORACE=halt_on_error=1 exitcode=66")
+	for _, u := range pl.Units {
+		if testMatchesUnit(u.Test, ff.Unit) {
+			cmd.Env = append(cmd.Env, u.Env...)
+		}
+	}
 	out, err := cmd.CombinedOutput()
 	text := string(out)
 	switch {
